@@ -44,6 +44,7 @@ func KernelVerdict(prog []cbpf.Raw) (accepted bool, errno int, err error) {
 	cmd := exec.CommandContext(ctx, bin)
 	cmd.Env = append(os.Environ(), "GODEBUG=asyncpreemptoff=1", "GOGC=off", "GOMAXPROCS=2")
 	cmd.Stdin = bytes.NewReader(buf)
+	cmd.WaitDelay = 2 * time.Second
 	out, runErr := cmd.Output()
 	var ret int
 	if _, e := fmt.Sscanf(string(out), "ret=%d errno=%d", &ret, &errno); e != nil {
